@@ -1,5 +1,5 @@
 #!/venv/bin/python
-"""tools/archive_batch.py <srcroot> <results.jsonl> <first number> [<ported root>]
+"""tools/archive_batch.py <srcroot> <results.jsonl> <first number> [<ported root>]      (env BATCH=<n>, RESULTS_AFTER=<results of the re-run>)
 Copy a batch of confirmed sub-agent changes (srcroot/<Cxx>/<n>/{patch.diff,demo.py,notes.md}) to /verif/seeded/<Cxx>-<first+n-1>/
 with a meta.json built from the evaluation results (tools/eval_seeded.py).  A change whose patch had to be ported to a newer
 HEAD (ported root/<Cxx>/<n>/patch.diff) is archived with both patches."""
@@ -10,6 +10,11 @@ import sys
 
 src, results, first = sys.argv[1], sys.argv[2], int(sys.argv[3])
 ported = sys.argv[4] if len(sys.argv) > 4 else None
+after = {}
+if os.environ.get("RESULTS_AFTER"):
+    for line in open(os.environ["RESULTS_AFTER"]):
+        r = json.loads(line)
+        after[(r["group"], r["n"])] = r
 res = {}
 for f in results.split(","):
     for line in open(f):
@@ -27,12 +32,16 @@ for (g, n), r in sorted(res.items()):
         shutil.copy(os.path.join(d, f), os.path.join(dst, f))
     if ported and os.path.exists(os.path.join(ported, g, n, "patch.diff")):
         shutil.copy(os.path.join(ported, g, n, "patch.diff"), os.path.join(dst, "patch_ported_to_later_head.diff"))
-    meta = {"property": g, "batch": 5, "needs_to_manifest": open(os.path.join(d, "notes.md")).read()[:1800],
+    meta = {"property": g, "batch": int(os.environ.get("BATCH", "5")), "needs_to_manifest": open(os.path.join(d, "notes.md")).read()[:1800],
             "confirmed": {"demo_passes_unmodified": True, "tests_pass_with_change": True, "demo_fails_with_change": True},
             "what_i_ran": ["tools/eval_seeded.py: pytest tests demo (minus the baseline's always-failing test) and demo.py in a scratch worktree, "
                            "with and without the patch; VERIF_REPO=<worktree> ./check %s" % g],
             "detected_by_checks_as_they_stood": {c: {"exit": v["exit"], "violation_lines": v["violations"], "first": v["first"][:2]}
                                                  for c, v in r.get("checks", {}).items()},
-            "detected_by": sorted(r.get("checks", {}))}
+            "detected_by": sorted(c for c, v in r.get("checks", {}).items() if v["exit"] == 1)}
+    if (g, n) in after:
+        meta["detected_after_strengthening"] = {c: {"exit": v["exit"], "violation_lines": v["violations"], "first": v["first"][:2]}
+                                                for c, v in after[(g, n)].get("checks", {}).items()}
+        meta["detected_by"] = sorted(set(meta["detected_by"]) | {c for c, v in after[(g, n)].get("checks", {}).items() if v["exit"] == 1})
     json.dump(meta, open(os.path.join(dst, "meta.json"), "w"), indent=1)
     print("archived", dst, {c: v["exit"] for c, v in r.get("checks", {}).items()})
